@@ -7,6 +7,8 @@ import (
 	"fmt"
 	"os"
 	"path/filepath"
+	"os/exec"
+	"strings"
 	"sync"
 )
 
@@ -26,7 +28,7 @@ func (v *Verifier) runCanaries(results []*FuncResult, dir string, perFunc int) (
 		groups := groupObls(r.Obls)
 		n := 0
 		for _, g := range groups {
-			if g.Kind != "post" || g.Status != "discharged" {
+			if g.Kind != "post" || g.Status != "discharged" || !strings.Contains(g.Name, "#post:") {
 				continue
 			}
 			if n >= perFunc {
@@ -89,6 +91,38 @@ func (v *Verifier) lemmaObligations(prop string, cl *Claim) ([]*Obligation, []st
 	return nil, nil
 }
 
+// tryReplay runs the witness test registered for the obligation (claims.json "replay":
+// obligation-name prefix -> "pkgdir|file under /verif/replay|TestName") against the repository under
+// check through `go test -overlay` (nothing is written into the repository). A failing test is a
+// failing input reproduced on the real code.
 func (v *Verifier) tryReplay(prop, name string, g *Group, cl *Claim, repo string) (string, bool) {
+	for prefix, spec := range cl.Replay {
+		if !strings.HasPrefix(name, prefix) {
+			continue
+		}
+		parts := strings.Split(spec, "|")
+		if len(parts) != 3 {
+			continue
+		}
+		vdir := envOr("VERIF_DIR", "/verif")
+		src := filepath.Join(vdir, "replay", parts[1])
+		scratch, err := os.MkdirTemp("", "gowp-replay")
+		if err != nil {
+			return "replay: " + err.Error(), false
+		}
+		defer os.RemoveAll(scratch)
+		ov := filepath.Join(scratch, "ov.json")
+		target := filepath.Join(repo, parts[0], "zz_gowp_replay_test.go")
+		os.WriteFile(ov, []byte(fmt.Sprintf(`{"Replace":{%q:%q}}`, target, src)), 0o644)
+		cmd := exec.Command("go", "test", "-overlay", ov, "-vet=off", "-count=1", "-timeout", "60s", "-run", "^"+parts[2]+"$", "./"+parts[0])
+		cmd.Dir = repo
+		cmd.Env = append(os.Environ(), "GOFLAGS=-mod=mod", "GOPROXY=off", "GOSUMDB=off", "GOTOOLCHAIN=local")
+		out, err := cmd.CombinedOutput()
+		text := fmt.Sprintf("witness test %s (%s) via go test -overlay:\n%s", parts[2], src, trunc(string(out), 4000))
+		if err != nil && strings.Contains(string(out), "--- FAIL") {
+			return text, true
+		}
+		return text + "\n(the witness test did not fail on this tree)", false
+	}
 	return "", false
 }
